@@ -97,6 +97,13 @@ type c16world struct {
 func genWorld(t *core.Tape, st *core.Stats) *c16world {
 	w := &c16world{}
 	names := []string{"a", "ab", "b", "bc", "c", "a_b", "b_c", "abc", "d"}
+
+	for _, n := range namePool(t) {
+		if n != "" && !has(names, n) {
+			names = append(names, n)
+		}
+	}
+
 	perm := core.NewRng(t.Seed64()).Perm(len(names))
 	nt := t.Range(1, 5)
 
